@@ -56,7 +56,7 @@ def expect_raw(nav):
 def run(tier="quick", seed=0, repo="/repo"):
     t = Tally(
         rule="documents of the list x paths (present, missing, wrong kind, array index, nested) x syntax (v:a.b / v['a'][0]) x source (literal parse_json / table column) x use "
-        "(raw extract, ::varchar, ::int, ::boolean, upper(), comparison in WHERE with and/or, arithmetic) against Python navigation of the same document; plus OBJECT_CONSTRUCT, ARRAY_SIZE, FLATTEN, TRY_PARSE_JSON; "
+        "(raw extract, ::varchar, ::int, ::boolean, upper(), comparison in WHERE with and/or, arithmetic, and the bare extraction under BETWEEN / NOT BETWEEN / IN / IS NULL / = / range / CASE) against Python navigation of the same document; plus OBJECT_CONSTRUCT, ARRAY_SIZE, FLATTEN, TRY_PARSE_JSON; "
         "distinct = distinct (document, path, syntax, source, use)",
         exhaustive=True,
     )
@@ -110,6 +110,19 @@ def run(tier="quick", seed=0, repo="/repo"):
                             elif klass == "json" and syn_name == "bracket":
                                 cid2 = cid.replace("json:", "json-bracket-cast:", 1)
                             t.case(cid2 + ":" + use, (cid, use), ok, function="fakesnow.transforms.json_extract_cast_as_varchar", case={"doc": i, "path": path, "syntax": syn_name, "source": src_name, "use": use}, expected=repr(wv), actual=detail, sample_every=61)
+                    if isinstance(raw, int) and not isinstance(raw, bool) and abs(raw) < 2**31 and syn_name == "colon":
+                        # the bare extraction as an operand of every operator class (no cast): precedence must not re-associate it
+                        for use, sql, wv in (("between", f"select ({expr} between {raw - 1} and {raw + 1}){frm}", True), ("not_between", f"select ({expr} not between {raw - 1} and {raw + 1}){frm}", False),
+                                             ("between_bound", f"select ({raw} between {expr} and {raw + 1}){frm}", True), ("in", f"select ({expr} in ({raw}, {raw + 7})){frm}", True),
+                                             ("is_null_and", f"select ({expr} is not null and true){frm}", True), ("eq", f"select ({expr} = {raw}){frm}", True),
+                                             ("range_and", f"select ({expr} > {raw - 1} and {expr} < {raw + 1}){frm}", True), ("case_between", f"select case when {expr} between {raw - 1} and {raw + 1} then 'in' else 'out' end{frm}", "in")):
+                            try:
+                                got = q(sql)
+                                ok = got == [(wv,)]
+                                detail = repr(got)
+                            except Exception as e:  # noqa: BLE001
+                                ok, detail = False, f"{type(e).__name__}: {str(e)[:120]}"
+                            t.case(cid + ":" + use, (cid, use), ok, function="fakesnow.transforms.json_extract_precedence", case={"doc": i, "path": path, "use": use, "sql": sql}, expected=repr(wv), actual=detail, sample_every=61)
                     if isinstance(raw, int) and not isinstance(raw, bool) and abs(raw) < 2**31:
                         for use, sql, wv in (("int", f"select {expr}::int{frm}", raw), ("arith", f"select {expr}::int + 1{frm}", raw + 1),
                                              ("where_and", f"select count(*) {frm or ' from docs where id = 0'} and {expr}::int = {raw} and 1 = 1" if frm else None, 1),
@@ -157,7 +170,7 @@ def run(tier="quick", seed=0, repo="/repo"):
         except Exception as e:  # noqa: BLE001
             ok, detail = False, f"{type(e).__name__}: {str(e)[:120]}"
         t.case(f"flatten:{lit_}", ("flatten", lit_), ok, function="fakesnow.transforms.flatten", case={"array": arr}, expected=repr(arr), actual=detail)
-    return t.result(bound=f"{len(DOCS)} documents x {len(PATHS)} paths x 2 syntaxes x 2 sources x up to 7 uses; {len(extra)} function cases; 3 FLATTEN arrays")
+    return t.result(bound=f"{len(DOCS)} documents x {len(PATHS)} paths x 2 syntaxes x 2 sources x up to 15 uses; {len(extra)} function cases; 3 FLATTEN arrays")
 
 
 def replay(case, repo):
